@@ -619,3 +619,34 @@ M('c20-multiline-comment', 'C20', 'C20.R1', LEX, '    r""" \\043.* """', '    r"
 
 B('c20-count-newlines-in-value', 'C20', LEX, "    if t.value != ';':\n        t.lexer.lineno += 1\n", "    if t.value == '\\n' or t.value == '\\r\\n':\n        t.lexer.lineno += 1\n")
 B('c20-eof-message-wording', 'C20', RUL, "        raise ParserError('Syntax error: unexpected end of input')", "        raise ParserError('Unexpected end of input')")
+
+
+# =============================================================================== independently written changes (/verif/seeded)
+def P(seed, props, rule=None):
+    CORPUS.append({'id': 'S/' + seed, 'props': _norm_props(props), 'rule': rule, 'expect': 'violation',
+                   'edits': [], 'patch': 'seeded/%s/patch.diff' % seed})
+
+
+P('C01-A', 'C01', 'C01.R7'); P('C01-B', 'C01', 'C01.R8')
+P('C02-A', 'C02', 'C02.R5'); P('C02-B', 'C02')
+P('C03-A', 'C03'); P('C03-B', 'C03', 'C03.R4')
+P('C04-A', ['C04', 'C08']); P('C04-B', 'C04', 'C04.R1')
+P('C05-A', 'C05', 'C05.R2'); P('C05-B', 'C05', 'C05.R3')
+P('C06-A', 'C06', 'C06.R1')
+P('C07-A', 'C09', 'C09.R1'); P('C07-B', 'C14', 'C14.R1')
+P('C08-A', 'C08', 'C08.R1'); P('C08-B', 'C08', 'C08.R2')
+P('C09-A', 'C09', 'C09.R3'); P('C09-B', 'C09', 'C09.R1')
+P('C10-A', 'C10', 'C10.R2'); P('C10-B', 'C10', 'C10.R3')
+P('C11-A', 'C11', 'C11.R2'); P('C11-B', 'C11', 'C11.R3')
+P('C12-A', 'C12', 'C12.R1'); P('C12-B', 'C12', 'C12.R1')
+P('C13-A', 'C13', 'C13.R1'); P('C13-B', 'C13', 'C13.R1')
+P('C14-A', 'C14', 'C14.R1')
+P('C15-A', 'C15', 'C15.R1'); P('C15-B', 'C06', 'C06.R2')
+P('C16-A', 'C16', 'C16.R1'); P('C16-B', 'C16', 'C16.R5')
+P('C17-A', 'C17', 'C17.R1'); P('C17-B', 'C17', 'C17.R5')
+P('C18-A', 'C18', 'C18.R1'); P('C18-B', 'C18')
+P('C19-A', 'C19', 'C19.R1'); P('C19-B', 'C19', 'C19.R3')
+P('C20-A', 'C20', 'C20.R1'); P('C20-B', 'C20', 'C20.R1')
+# the refactoring that extends the language (see DESIGN 7.3) must at least not raise a false alarm or an analysis error
+CORPUS.append({'id': 'S/C06-B-silent', 'props': ['C02', 'C07', 'C09', 'C12', 'C14', 'C15', 'C18'], 'rule': None, 'expect': 'silent',
+               'edits': [], 'patch': 'seeded/C06-B/patch.diff'})
